@@ -131,12 +131,10 @@ impl<L: Language> SerializableRuleConfig<L> {
     rule: &RuleCore<L>,
     env: DeserializeEnv<L>,
   ) -> Result<(), RuleConfigError> {
-    let Some(ser) = &self.rewriters else {
-      return Ok(());
-    };
     let reg = &env.registration;
     let vars = rule.defined_vars();
-    for val in ser {
+    // without a `rewriters` section the transforms must still not refer to any rewriter
+    for val in self.rewriters.iter().flatten() {
       if val.core.fix.is_none() {
         return Err(RuleConfigError::NoFixInRewriter(val.id.clone()));
       }
